@@ -350,6 +350,14 @@ def run_shard(spec, rec):
         rnd.shuffle(pairs)
         n = 600 if rec.tier == 'quick' else 6000
         mine = pairs[:n][spec['part']::4]
+        if via == 'cell':
+            # neighbours on purpose: one workbook (one instance of the class) compares 0, FALSE and a blank cell with the same
+            # partner one after the other - whatever an instance remembers between two comparisons must not matter
+            partners = [t for t in TEXTS if t != ''] + [0, 1, -1, 0.5, wbk.enc(DATES[2])]
+            together = []
+            for t in partners[spec['part']::4]:
+                together += [(0, t), (BLANK, t), (False, t), (t, BLANK), (t, 0)]
+            mine = together + mine
         for i in range(0, len(mine), 60):
             if rec.out_of_time():
                 break
